@@ -245,7 +245,7 @@ class C05(Check):
     def _oracles(self, ctx, B, spec, tr, rows, tids, label, failures, expect_judged, thresholds=True):
         wn = tr.wn
         hyd = spec["options"]["hyd"]
-        ctl = spec["controls"]
+        ctl = K.cond_controls(spec)
         if not rows or not ctl:
             return
         tankset = set(tr.tank_names)
@@ -373,6 +373,10 @@ class C05(Check):
         specs.append(("designed/priority-conflict-high-first", K.priority_conflict_spec(True), None))
         specs.append(("designed/priority-conflict-high-last", K.priority_conflict_spec(False), None))
         specs.append(("designed/priority-conflict-equal", K.priority_conflict_spec(True, True), None))
+        # presolve controls of every priority firing in the step where a threshold / limit is crossed: time order must win
+        for prio in ([0, 1, 3, 6] if ctx.quick else range(7)):
+            specs.append(("designed/presolve-priority-%d-threshold" % prio, K.priority_presolve_spec(prio, "threshold"), [0]))
+            specs.append(("designed/presolve-priority-%d-two-levels" % prio, K.priority_presolve_spec(prio, "two-levels"), [0, 1]))
         n = 14 if ctx.quick else 220
         for i in range(n):
             force = {}
@@ -381,8 +385,8 @@ class C05(Check):
             specs.append(("seed%d/net%d" % (ctx.seed, i), K.random_network(ctx.rng, ctx.quick, force), None))
         for k, (label, spec, expect) in enumerate(specs):
             tr = self._network(ctx, B, spec, label, failures, broken, expect_judged=expect, grid=(k % 4 == 0))
-            if len(ctx.samples) < 4 and tr.rows and spec["controls"]:
-                c = spec["controls"][0]
+            if len(ctx.samples) < 4 and tr.rows and K.cond_controls(spec):
+                c = K.cond_controls(spec)[0]
                 ctx.sample({"network": label, **K.minimal_note(spec), "control": "IF %s %s %s %s THEN %s %s PRIORITY %d" % (c["src"], c["attr"], c["rel"], c["thr"], c["link"], c["value"], c["prio"]),
                             "reported": [(r["t"], r["links"][c["link"]][0]) for r in tr.rows[:8]]})
         B.finish()
